@@ -26,6 +26,7 @@ theorem eval_subst (σ : List (Nat × Expr)) (ρ : Env) (A : Arrays) (e : Expr) 
   | neg t e ih => simp only [subst, eval, ih]
   | not t e ih => simp only [subst, eval, ih]
   | idx a e ih => simp only [subst, eval, ih]
+  | len a => rfl
   | unknown w => rfl
 
 theorem envOf_nil (ρ : Env) (A : Arrays) : envOf [] ρ A = ρ := by
@@ -227,6 +228,7 @@ theorem normE_sound (ρ : Env) (A : Arrays) (e : Expr) : eval ρ A (normE e) = e
   | idx a e ih => simp only [normE, eval, ih]
   | var n => rfl
   | lit v => rfl
+  | len a => rfl
   | unknown w => rfl
 
 /-! ### what the tie-A obligations use -/
@@ -283,6 +285,7 @@ theorem normC_sound (ρ : Env) (A : Arrays) (c : Cond) : evalC ρ A (normC c) = 
   | and c d ihc ihd => simp only [normC, evalC, ihc, ihd]
   | or c d ihc ihd => simp only [normC, evalC, ihc, ihd]
   | oneOf e vs => simp only [normC, evalC, normE_sound]
+  | isNil a => rfl
   | unknown w => rfl
 
 theorem normStmts_runEnv (A : Arrays) (b : List Stmt) : ∀ ρ, runEnv A ρ (normStmts b) = runEnv A ρ b := by
@@ -329,5 +332,232 @@ theorem sameVars_eq {xs : List Nat} {b1 b2 : List Stmt} (h : sameVars xs b1 b2 =
   have := h x hx
   simp only [Bool.and_eq_true, decide_eq_true_eq] at this
   exact canonVar_eq this.1 this.2 A ρ
+
+/-! ### the counting loop `for i := k; i < N; i++` is `forLoop` -/
+
+theorem upd_self (ρ : Env) (n : Nat) : upd ρ n (ρ n) = ρ := by
+  funext m; simp only [upd]; split <;> simp_all
+
+theorem upd_upd (ρ : Env) (n : Nat) (a b : Int) : upd (upd ρ n a) n b = upd ρ n b := by
+  funext m; simp only [upd]; split <;> rfl
+
+theorem forLoop_upd_start (A : Arrays) (body : List Stmt) (iv : Nat) (N : Int) :
+    ∀ (n k : Nat) (σ : Env), upd (forLoop A body iv n k (upd σ iv (k : Int))) iv N = upd (forLoop A body iv n k σ) iv N := by
+  intro n k σ
+  cases n with
+  | zero => simp only [forLoop, upd_upd]
+  | succ n => simp only [forLoop, upd_upd]
+
+/-- If, on the environments the loop goes through (`Inv`), the condition is `i < N`, and one round (body
+    then post statement) leaves `i + 1` in the loop variable and re-establishes `Inv`, then the `while`
+    semantics of the loop with `N - k + 1` units of fuel is `forLoop` (up to the final value `N` of the loop
+    variable). -/
+theorem whileLoop_forLoop (A : Arrays) (cond : Cond) (body post : List Stmt) (iv N : Nat) (Inv : Env → Prop)
+    (hcond : ∀ ρ, Inv ρ → evalC ρ A cond = ltb (ρ iv) (N : Int))
+    (hstep : ∀ (ρ : Env) (k : Nat), Inv ρ → ρ iv = (k : Int) → k < N →
+      runEnv A (runEnv A ρ body) post = upd (runEnv A ρ body) iv ((k + 1 : Nat) : Int)
+      ∧ Inv (upd (runEnv A ρ body) iv ((k + 1 : Nat) : Int))) :
+    ∀ (n k : Nat) (ρ : Env), Inv ρ → ρ iv = (k : Int) → k + n = N →
+      whileLoop A cond body post (n + 1) ρ = upd (forLoop A body iv n k ρ) iv (N : Int) := by
+  intro n
+  induction n with
+  | zero =>
+    intro k ρ hI hk hN
+    have : k = N := by omega
+    subst this
+    rw [whileLoop, hcond ρ hI, hk]
+    have : ltb (k : Int) (k : Int) = false := (ltb_false _ _).mpr (by omega)
+    rw [this, cond_false, forLoop, ← hk, upd_self]
+  | succ n ih =>
+    intro k ρ hI hk hN
+    rw [whileLoop, hcond ρ hI, hk]
+    have : ltb (k : Int) (N : Int) = true := (ltb_iff _ _).mpr (by omega)
+    rw [this, cond_true]
+    have ⟨e1, hI'⟩ := hstep ρ k hI hk (by omega)
+    rw [e1, ih (k + 1) _ hI' (by simp [upd]) (by omega), forLoop_upd_start, forLoop]
+    have : upd ρ iv (k : Int) = ρ := by rw [← hk, upd_self]
+    rw [this]
+
+/-- glue for functions of the shape `pre; for i := 0; i < sz; i++ { body }; after` with loop variable 1 and the
+    bound in variable 3: the `while` reading of the transcribed header is `forLoop` over `N` iterations -/
+theorem while_glue (A : Arrays) (pre init : List Stmt) (cond : Cond) (post body after : List Stmt) (N : Nat) (ρ : Env)
+    (hpre : runRet A ρ pre = none)
+    (h1 : runEnv A (runEnv A ρ pre) init 1 = 0) (h3 : runEnv A (runEnv A ρ pre) init 3 = (N : Int))
+    (hcond : ∀ σ, evalC σ A cond = ltb (σ 1) (σ 3))
+    (hpost : ∀ σ, runEnv A σ post = upd σ 1 (norm .i64 (σ 1 + 1)))
+    (hframe : ∀ σ, runEnv A σ body 1 = σ 1 ∧ runEnv A σ body 3 = σ 3)
+    (hafter : ∀ σ v, runRet A (upd σ 1 v) after = runRet A σ after)
+    (hN : N < 4611686018427387904) :
+    callWhile A pre init cond post body after (N + 1) ρ
+      = retVal (runRet A (forLoop A body 1 N 0 (runEnv A (runEnv A ρ pre) init)) after) := by
+  unfold callWhile
+  rw [hpre]
+  simp only []
+  have := whileLoop_forLoop A cond body post 1 N (fun σ => σ 3 = (N : Int))
+    (fun σ hI => by rw [hcond, hI])
+    (fun σ k hI hk hlt => by
+      have ⟨f1, f3⟩ := hframe σ
+      constructor
+      · rw [hpost, f1, hk]
+        have : norm .i64 ((k : Int) + 1) = ((k + 1 : Nat) : Int) := by
+          simp only [norm, Ty.half, Ty.modulus]; omega
+        rw [this]
+      · show upd (runEnv A σ body) 1 _ 3 = _
+        simp only [upd, Nat.reduceEqDiff, if_false]
+        rw [f3]; exact hI)
+    N 0 (runEnv A (runEnv A ρ pre) init) h3 (by rw [h1]; rfl) (by omega)
+  rw [this, hafter]
+
+
+/-- general glue: loop variable `iv`, any invariant that makes the condition `i < N` -/
+theorem while_glue_gen (A : Arrays) (pre init : List Stmt) (cond : Cond) (post body after : List Stmt) (iv N : Nat)
+    (ρ : Env) (Inv : Env → Prop)
+    (hpre : runRet A ρ pre = none)
+    (hI0 : Inv (runEnv A (runEnv A ρ pre) init)) (h1 : runEnv A (runEnv A ρ pre) init iv = 0)
+    (hcond : ∀ σ, Inv σ → evalC σ A cond = ltb (σ iv) (N : Int))
+    (hpost : ∀ σ, runEnv A σ post = upd σ iv (norm .i64 (σ iv + 1)))
+    (hframe : ∀ σ, runEnv A σ body iv = σ iv)
+    (hinv : ∀ σ v, Inv σ → Inv (upd (runEnv A σ body) iv v))
+    (hafter : ∀ σ v, runRet A (upd σ iv v) after = runRet A σ after)
+    (hN : N < 4611686018427387904) :
+    callWhile A pre init cond post body after (N + 1) ρ
+      = retVal (runRet A (forLoop A body iv N 0 (runEnv A (runEnv A ρ pre) init)) after) := by
+  unfold callWhile
+  rw [hpre]
+  simp only []
+  have := whileLoop_forLoop A cond body post iv N Inv hcond
+    (fun σ k hI hk hlt => by
+      constructor
+      · rw [hpost, hframe, hk]
+        have : norm .i64 ((k : Int) + 1) = ((k + 1 : Nat) : Int) := by
+          simp only [norm, Ty.half, Ty.modulus]; omega
+        rw [this]
+      · exact hinv σ _ hI)
+    N 0 (runEnv A (runEnv A ρ pre) init) hI0 (by rw [h1]; rfl) (by omega)
+  rw [this, hafter]
+
+/-- a block of plain assignments -/
+def isPure : List Stmt → Bool
+  | [] => true
+  | .set _ _ :: rest => isPure rest
+  | _ => false
+
+theorem runRet_pure (A : Arrays) : ∀ (b : List Stmt) (ρ : Env), isPure b = true → runRet A ρ b = none := by
+  intro b
+  induction b with
+  | nil => intro ρ _; rfl
+  | cons s rest ih =>
+    intro ρ h
+    cases s <;> simp [isPure] at h
+    simp only [runRet]; exact ih _ h
+
+theorem runEnv_append (A : Arrays) : ∀ (b1 b2 : List Stmt) (ρ : Env), isPure b1 = true →
+    runEnv A ρ (b1 ++ b2) = runEnv A (runEnv A ρ b1) b2 := by
+  intro b1
+  induction b1 with
+  | nil => intro b2 ρ _; rfl
+  | cons s rest ih =>
+    intro b2 ρ h
+    cases s <;> simp [isPure] at h
+    simp only [List.cons_append, runEnv]; exact ih _ _ h
+
+
+/-! ### frame: a block that never reads variable `x` does not depend on it -/
+
+def Expr.uses (x : Nat) : Expr → Bool
+  | .var n => n == x
+  | .lit _ => false
+  | .conv _ e => e.uses x
+  | .bin _ _ a b => a.uses x || b.uses x
+  | .neg _ e => e.uses x
+  | .not _ e => e.uses x
+  | .idx _ e => e.uses x
+  | .len _ => false
+  | .unknown _ => true
+
+def Cond.uses (x : Nat) : Cond → Bool
+  | .lt a b | .le a b | .eq a b | .ne a b => a.uses x || b.uses x
+  | .and c d | .or c d => c.uses x || d.uses x
+  | .oneOf e _ => e.uses x
+  | .isNil _ => false
+  | .unknown _ => true
+
+def Stmt.reads (x : Nat) : Stmt → Bool
+  | .set _ e => e.uses x
+  | .setIf c _ e => c.uses x || e.uses x
+  | .ret e => e.uses x
+  | .retIf c e => c.uses x || e.uses x
+  | .unknown _ => true
+
+def agreeExcept (x : Nat) (ρ ρ' : Env) : Prop := ∀ n, n ≠ x → ρ n = ρ' n
+
+theorem eval_agree (A : Arrays) (x : Nat) (ρ ρ' : Env) (h : agreeExcept x ρ ρ') (e : Expr) (he : e.uses x = false) :
+    eval ρ A e = eval ρ' A e := by
+  induction e with
+  | var n => simp only [Expr.uses, beq_eq_false_iff_ne] at he; exact h n he
+  | lit v => rfl
+  | conv t e ih => simp only [Expr.uses] at he; simp only [eval, ih he]
+  | bin op t a b iha ihb =>
+    simp only [Expr.uses, Bool.or_eq_false_iff] at he
+    simp only [eval, iha he.1, ihb he.2]
+  | neg t e ih => simp only [Expr.uses] at he; simp only [eval, ih he]
+  | not t e ih => simp only [Expr.uses] at he; simp only [eval, ih he]
+  | idx a e ih => simp only [Expr.uses] at he; simp only [eval, ih he]
+  | len a => rfl
+  | unknown w => simp [Expr.uses] at he
+
+theorem evalC_agree (A : Arrays) (x : Nat) (ρ ρ' : Env) (h : agreeExcept x ρ ρ') (c : Cond) (hc : c.uses x = false) :
+    evalC ρ A c = evalC ρ' A c := by
+  induction c with
+  | lt a b => simp only [Cond.uses, Bool.or_eq_false_iff] at hc; simp only [evalC, eval_agree A x ρ ρ' h a hc.1, eval_agree A x ρ ρ' h b hc.2]
+  | le a b => simp only [Cond.uses, Bool.or_eq_false_iff] at hc; simp only [evalC, eval_agree A x ρ ρ' h a hc.1, eval_agree A x ρ ρ' h b hc.2]
+  | eq a b => simp only [Cond.uses, Bool.or_eq_false_iff] at hc; simp only [evalC, eval_agree A x ρ ρ' h a hc.1, eval_agree A x ρ ρ' h b hc.2]
+  | ne a b => simp only [Cond.uses, Bool.or_eq_false_iff] at hc; simp only [evalC, eval_agree A x ρ ρ' h a hc.1, eval_agree A x ρ ρ' h b hc.2]
+  | and c d ihc ihd => simp only [Cond.uses, Bool.or_eq_false_iff] at hc; simp only [evalC, ihc hc.1, ihd hc.2]
+  | or c d ihc ihd => simp only [Cond.uses, Bool.or_eq_false_iff] at hc; simp only [evalC, ihc hc.1, ihd hc.2]
+  | oneOf e vs => simp only [Cond.uses] at hc; simp only [evalC, eval_agree A x ρ ρ' h e hc]
+  | isNil a => rfl
+  | unknown w => simp [Cond.uses] at hc
+
+theorem agree_upd (x n : Nat) (v : Int) {ρ ρ' : Env} (h : agreeExcept x ρ ρ') : agreeExcept x (upd ρ n v) (upd ρ' n v) := by
+  intro m hm; simp only [upd]; split
+  · rfl
+  · exact h m hm
+
+theorem runRet_agree (A : Arrays) (x : Nat) : ∀ (b : List Stmt) (ρ ρ' : Env), agreeExcept x ρ ρ' →
+    b.all (fun s => !s.reads x) = true → runRet A ρ b = runRet A ρ' b := by
+  intro b
+  induction b with
+  | nil => intro ρ ρ' _ _; rfl
+  | cons s rest ih =>
+    intro ρ ρ' h hb
+    simp only [List.all_cons, Bool.and_eq_true, Bool.not_eq_true'] at hb
+    obtain ⟨hs, hr⟩ := hb
+    have hr' : rest.all (fun s => !s.reads x) = true := by simpa using hr
+    cases s with
+    | set n e =>
+      simp only [Stmt.reads] at hs
+      simp only [runRet, eval_agree A x ρ ρ' h e hs]
+      exact ih _ _ (agree_upd x n _ h) hr'
+    | setIf c n e =>
+      simp only [Stmt.reads, Bool.or_eq_false_iff] at hs
+      simp only [runRet, eval_agree A x ρ ρ' h e hs.2, evalC_agree A x ρ ρ' h c hs.1]
+      cases evalC ρ' A c
+      · exact ih _ _ h hr'
+      · exact ih _ _ (agree_upd x n _ h) hr'
+    | ret e => simp only [Stmt.reads] at hs; simp only [runRet, eval_agree A x ρ ρ' h e hs]
+    | retIf c e =>
+      simp only [Stmt.reads, Bool.or_eq_false_iff] at hs
+      simp only [runRet, eval_agree A x ρ ρ' h e hs.2, evalC_agree A x ρ ρ' h c hs.1]
+      cases evalC ρ' A c
+      · exact ih _ _ h hr'
+      · rfl
+    | unknown w => simp [Stmt.reads] at hs
+
+/-- a block that never reads `x` returns the same value whatever `x` holds -/
+theorem runRet_frame (A : Arrays) (x : Nat) (b : List Stmt) (hb : b.all (fun s => !s.reads x) = true) (σ : Env) (v : Int) :
+    runRet A (upd σ x v) b = runRet A σ b :=
+  runRet_agree A x b _ _ (fun n hn => by simp [upd, hn]) hb
+
 
 end GoSem
